@@ -7,7 +7,7 @@ class PrvError(Exception):
     pass
 
 
-HDR = re.compile(r"^#Paraver \(19/01/38 at 03:14\):(\d+)_ns:0:1:1\((\d+):1\)$")
+HDR = re.compile(r"^#Paraver \([^)]*\):(\d+)(?:_ns)?:0:1:1\((\d+):1\)")
 
 
 class Prv:
@@ -95,24 +95,23 @@ class Pcf:
                         mode = None
                     continue
                 if mode == "type":
-                    m = re.match(r"^0 (\d+)", line)
+                    m = re.match(r"^\S+\s+(\d+)\s+(.*)$", line)
                     if not m:
                         raise PrvError("bad pcf type line %r" % line)
                     cur = int(m.group(1))
                     if cur in self.types:
                         raise PrvError("pcf type %d twice" % cur)
-                    # format is "0 %-10d %s"
-                    self.types[cur] = (line[2 + max(len(m.group(1)), 10) + 1:], {})
+                    self.types[cur] = (m.group(2).strip(), {})
                     mode = "aftertype"
                 elif mode == "values":
-                    m = re.match(r"^(-?\d+)", line)
+                    m = re.match(r"^(-?\d+)\s+(.*)$", line)
                     if not m:
                         raise PrvError("bad pcf value line %r" % line)
                     v = int(m.group(1))
                     if v in self.types[cur][1]:
                         raise PrvError("pcf value %d twice in type %d" % (v, cur))
-                    # format is "%-4d %s"
-                    self.types[cur][1][v] = line[max(len(m.group(1)), 4) + 1:]
+                    # labels are compared modulo surrounding blanks (the writer pads columns)
+                    self.types[cur][1][v] = m.group(2).strip()
 
     def label(self, ty, v):
         t = self.types.get(ty)
@@ -134,7 +133,7 @@ class Row:
         rest = lines[4:]
         if rest and rest[-1] == "":
             rest = rest[:-1]
-        self.names = rest
+        self.names = [n.strip() for n in rest]
 
 
 class Pvt:
